@@ -17,6 +17,7 @@ pub mod c13;
 pub mod c14;
 pub mod c16;
 pub mod c17;
+pub mod c18;
 pub mod c19;
 pub mod c20;
 
@@ -44,7 +45,7 @@ pub fn default_watchdog(tier: &str) -> u64 {
 }
 
 pub fn all() -> Vec<PropDef> {
-	vec![c01::def(), c02::def(), c03::def(), c04::def(), c06::def(), c07::def(), c08::def(), c09::def(), c10::def(), c13::def(), c14::def(), c16::def(), c17::def(), c19::def(), c20::def()]
+	vec![c01::def(), c02::def(), c03::def(), c04::def(), c06::def(), c07::def(), c08::def(), c09::def(), c10::def(), c13::def(), c14::def(), c16::def(), c17::def(), c18::def(), c19::def(), c20::def()]
 }
 
 #[derive(Clone, Debug, Deserialize)]
